@@ -43,6 +43,7 @@ CONSTANTS
   MaxSend,       \* number of payload units each endpoint may send
   EofWithData,   \* BOOLEAN: a Read may return its last bytes together with io.EOF
   ShapesA, ShapesB, \* conn shapes of the local side / the tunnel side (cfg: <- LocalShapes / AllShapes ...)
+  DevDrainDeadline,       \* seeded fault: an absolute read deadline on the surviving direction's source after a half-close
   DevCloseWriterFallback, \* seeded fault: the adapter's CloseWrite closes a Writer that is only an io.Closer
   \* ---- (ii) UDP
   Classes,       \* datagram size classes = model sizes (1, 2, 3 ~ "255", 4 ~ "65535")
@@ -55,6 +56,10 @@ CONSTANTS
   BatchBuf,      \* batchBufSize of the batching writer (256 KiB in the code; scaled to model sizes)
   High,          \* refill threshold of readBuf (256 KiB in the code): larger than any modelled stream
   DevSpin, DevNoUnblock, DevAliasFlush,
+  SockBatch,     \* TRUE: the UDP side is a real *net.UDPConn: flush() goes through udpBatchWriter, whose add()
+                 \* silently refuses a datagram once its BatchSize message slots are taken
+  DevNoInnerFlush, \* seeded fault C12/r3m1 (not in the code): no flush inside the unpack loop when BatchSize
+                 \* datagrams are pending - one parse pass may hand more than BatchSize datagrams to flush()
   SockQueue,     \* TRUE: the UDP side is a mapping.UDPVirtualConn: Write queues the datagram (writeChan), a
                  \* separate goroutine (writeLoop) sends it on the socket later
   DevQueueRefs,  \* seeded fault C12/r2m2 (not in the code): the queue keeps the slice it was given - a
@@ -74,6 +79,7 @@ VARIABLES
   cp,      \* [dir -> [pc, off, n, rerr, werr]]      copier goroutines
   bmain,   \* "wait" | "returned"
   rclosed, \* [end -> BOOLEAN] relay called conn.Close()
+  dl,      \* [end -> "none" | "armed" | "expired"] read deadline the relay has put on that conn
   bhist,   \* behaviour so far (generation only)
   \* (ii)
   par,     \* behaviour parameters [t, u, cut, how, chunk, pace]
@@ -95,10 +101,10 @@ VARIABLES
   umain,   \* "wait" | "returned"
   devSpin, devBlocked, devAlias, devDropped
 
-bvars == <<shape, ep, cp, bmain, rclosed, bhist>>
+bvars == <<shape, ep, cp, bmain, rclosed, dl, bhist>>
 uvars == <<par, tpos, g2, wq, udpGot, g1, lock, tw, usent, upos, tunGot, timerOn, sockClosed, tunHalfClosed, umain, devSpin, devBlocked, devAlias, devDropped>>
 vars  == <<bvars, uvars>>
-bview == <<shape, ep, cp, bmain, rclosed, uvars>>   \* VIEW of the generation cfg: everything but bhist
+bview == <<shape, ep, cp, bmain, rclosed, dl, uvars>>   \* VIEW of the generation cfg: everything but bhist
 
 (*********************************************************************************************)
 (* (i) Bidirectional                                                                         *)
@@ -137,6 +143,7 @@ BIdle == /\ shape \in [Ends -> AllShapes] /\ shape["A"] \in ShapesA /\ shape["B"
          /\ cp = [d \in Dirs |-> [pc |-> "read", off |-> 0, n |-> 0, rerr |-> "none", werr |-> FALSE]]
          /\ bmain = "wait"
          /\ rclosed = [e \in Ends |-> FALSE]
+         /\ dl = [e \in Ends |-> "none"]
          /\ bhist = IF Emit THEN <<[a |-> "Init", shA |-> shape["A"], shB |-> shape["B"]]>> ELSE <<>>
 
 BH(step) == IF Emit THEN /\ bhist' = Append(bhist, step) /\ Out(bhist') ELSE bhist' = bhist
@@ -147,19 +154,19 @@ BH(step) == IF Emit THEN /\ bhist' = Append(bhist, step) /\ Out(bhist') ELSE bhi
 EpSend(e) == /\ bmain = "wait" /\ ep[e].wr = "open" /\ ep[e].sent < MaxSend
              /\ ep' = [ep EXCEPT ![e].sent = @ + 1]
              /\ BH([a |-> "Send", e |-> e])
-             /\ UNCHANGED <<shape, cp, bmain, rclosed>>
+             /\ UNCHANGED <<shape, cp, bmain, rclosed, dl>>
 EpHalfClose(e) == /\ bmain = "wait" /\ ep[e].wr = "open"
                   /\ ep' = [ep EXCEPT ![e].wr = "shut"]
                   /\ BH([a |-> "HalfClose", e |-> e])
-                  /\ UNCHANGED <<shape, cp, bmain, rclosed>>
+                  /\ UNCHANGED <<shape, cp, bmain, rclosed, dl>>
 EpClose(e) == /\ bmain = "wait" /\ ep[e].rd = "open"
               /\ ep' = [ep EXCEPT ![e].wr = "shut", ![e].rd = "closed"]
               /\ BH([a |-> "Close", e |-> e])
-              /\ UNCHANGED <<shape, cp, bmain, rclosed>>
+              /\ UNCHANGED <<shape, cp, bmain, rclosed, dl>>
 EpError(e) == /\ bmain = "wait" /\ ep[e].rd = "open"
               /\ ep' = [ep EXCEPT ![e].wr = "err", ![e].rd = "closed"]
               /\ BH([a |-> "Error", e |-> e])
-              /\ UNCHANGED <<shape, cp, bmain, rclosed>>
+              /\ UNCHANGED <<shape, cp, bmain, rclosed, dl>>
 EnvB == \E e \in Ends : EpSend(e) \/ EpHalfClose(e) \/ EpClose(e) \/ EpError(e)
 
 \* ---- copier goroutine d: for { nr, readErr := src.Read(buf); ... } ---------------------------
@@ -167,21 +174,22 @@ Avail(d) == ep[Src(d)].sent - cp[d].off
 
 \* src.Read returns nr > 0 (and possibly io.EOF with the last bytes)
 CReadData(d) ==
-  /\ cp[d].pc = "read" /\ ep[Src(d)].wr # "err" /\ Avail(d) > 0 /\ ~rclosed[Src(d)]
+  /\ cp[d].pc = "read" /\ ep[Src(d)].wr # "err" /\ Avail(d) > 0 /\ ~rclosed[Src(d)] /\ dl[Src(d)] # "expired"
   /\ \E n \in 1..Avail(d) : \E eof \in {FALSE} \cup (IF EofWithData /\ ep[Src(d)].wr = "shut" /\ n = Avail(d) THEN {TRUE} ELSE {}) :
        /\ cp' = [cp EXCEPT ![d].pc = "write", ![d].n = n, ![d].off = @ + n, ![d].rerr = IF eof THEN "eof" ELSE "none"]
        /\ BH([a |-> "Read", d |-> d, n |-> n, end |-> IF eof THEN "eof" ELSE "none"])
-  /\ UNCHANGED <<shape, ep, bmain, rclosed>>
+  /\ UNCHANGED <<shape, ep, bmain, rclosed, dl>>
 \* src.Read returns (0, io.EOF) or (0, err): leave the loop
 CReadEnd(d) ==
   /\ cp[d].pc = "read"
   /\ \/ ep[Src(d)].wr = "err"
      \/ ep[Src(d)].wr = "shut" /\ Avail(d) = 0
      \/ rclosed[Src(d)]                             \* reading a conn the relay has closed itself
-  /\ LET k == IF ep[Src(d)].wr = "err" \/ rclosed[Src(d)] THEN "err" ELSE "eof" IN
+     \/ dl[Src(d)] = "expired"                      \* i/o timeout: a read deadline in the past fails every Read
+  /\ LET k == IF ep[Src(d)].wr = "err" \/ rclosed[Src(d)] \/ dl[Src(d)] = "expired" THEN "err" ELSE "eof" IN
        /\ cp' = [cp EXCEPT ![d].pc = "halfclose", ![d].rerr = k]
        /\ BH([a |-> "Read", d |-> d, n |-> 0, end |-> k])
-  /\ UNCHANGED <<shape, ep, bmain, rclosed>>
+  /\ UNCHANGED <<shape, ep, bmain, rclosed, dl>>
 \* dst.Write(buf[:nr]): everything or an error (then leave the loop)
 CWrite(d) ==
   /\ cp[d].pc = "write"
@@ -191,12 +199,16 @@ CWrite(d) ==
        ELSE /\ ep' = ep
             /\ cp' = [cp EXCEPT ![d].n = 0, ![d].werr = TRUE, ![d].pc = "halfclose"]
   /\ BH([a |-> "Write", d |-> d])
-  /\ UNCHANGED <<shape, bmain, rclosed>>
+  /\ UNCHANGED <<shape, bmain, rclosed, dl>>
 \* tryCloseWrite(dst): see Effect
 CHalfClose(d) ==
   /\ cp[d].pc = "halfclose"
   /\ ep' = [ep EXCEPT ![Dst(d)].eofSeen = @ \/ Cw(Dst(d))]
   /\ rclosed' = [rclosed EXCEPT ![Dst(d)] = @ \/ Effect(shape[Dst(d)]) = "kill"]
+  \* DevDrainDeadline (seeded fault C12/r3m2, not in the code): "the other direction must not wait for
+  \* ever" - an ABSOLUTE read deadline is put on the conn the surviving direction reads from (only
+  \* conns handed over directly can take one: the adapter has no SetReadDeadline)
+  /\ dl' = [dl EXCEPT ![Dst(d)] = IF DevDrainDeadline /\ shape[Dst(d)] \in LocalShapes /\ @ = "none" THEN "armed" ELSE @]
   /\ cp' = [cp EXCEPT ![d].pc = "done"]
   /\ BH([a |-> "CloseWrite", d |-> d])
   /\ UNCHANGED <<shape, bmain>>
@@ -207,10 +219,17 @@ BMain == /\ bmain = "wait" /\ \A d \in Dirs : cp[d].pc = "done"
          /\ bmain' = "returned"
          /\ rclosed' = [e \in Ends |-> TRUE]
          /\ BH([a |-> "Return"])
-         /\ UNCHANGED <<shape, ep, cp>>
+         /\ UNCHANGED <<shape, ep, cp, dl>>
+
+\* environment: time passes - an absolute deadline, once set, is eventually in the past no matter how
+\* much traffic flows
+Tick(e) == /\ bmain = "wait" /\ dl[e] = "armed"
+           /\ dl' = [dl EXCEPT ![e] = "expired"]
+           /\ bhist' = bhist
+           /\ UNCHANGED <<shape, ep, cp, bmain, rclosed>>
 
 UFrozen == UNCHANGED uvars
-BNext == (EnvB \/ (\E d \in Dirs : Copier(d)) \/ BMain) /\ UFrozen
+BNext == (EnvB \/ (\E e \in Ends : Tick(e)) \/ (\E d \in Dirs : Copier(d)) \/ BMain) /\ UFrozen
 
 \* ---- properties -----------------------------------------------------------------------------
 BTypeOK == /\ \A e \in Ends : ep[e].sent \in 0..MaxSend /\ ep[e].got \in 0..MaxSend
@@ -230,6 +249,9 @@ BReverseKeepsFlowing ==
   /\ \A d \in Dirs : cp[d].pc \in {"halfclose", "done"} => (cp[d].rerr # "none" \/ cp[d].werr)
 \* ... and a direction never ends unless its own source ended or its own destination failed
 BNoSpuriousEnd == \A d \in Dirs : cp[d].rerr # "none" => ep[Src(d)].wr # "open"
+\* the relay puts no read deadline on a conn whose direction is still live (time alone must never
+\* end a direction whose source is open)
+BNoDeadline == \A e \in Ends : dl[e] = "none"
 \* nothing is delivered after the relay's own half-close of that conn
 BMonotone == [][\A e \in Ends : /\ ep'[e].got >= ep[e].got
                                 /\ (ep[e].eofSeen /\ Cw(e)) => ep'[e].got = ep[e].got]_bvars
@@ -302,6 +324,8 @@ TunBroken == par.how = "err" /\ g2.ended
 \* write happens
 Mem == g2.buf \o g2.stale        \* the readBuf array as far as anybody can still see it
 Drop(q, n) == SubSeq(q, n + 1, Len(q))
+\* what flush() really sends: everything, or - through udpBatchWriter - what fitted into its slots
+Sendable(pend) == IF SockBatch /\ Len(pend) > BatchSize THEN SubSeq(pend, 1, BatchSize) ELSE pend
 Contents(pend, buf) == [i \in 1..Len(pend) |-> SubSeq(buf, pend[i][1] + 1, pend[i][1] + pend[i][2])]
 FlushOK == ~sockClosed
 
@@ -338,8 +362,8 @@ G2Inner ==
                      g2' = [g2 EXCEPT !.pc = "after"]
                 ELSE LET pend == Append(g2.pending, <<p + 2, plen>>) IN
                      g2' = [g2 EXCEPT !.pending = pend, !.processed = p + 2 + plen,
-                                      !.pc = IF Len(pend) >= BatchSize THEN "flush" ELSE "inner",
-                                      !.cont = IF Len(pend) >= BatchSize THEN "inner" ELSE @]
+                                      !.pc = IF Len(pend) >= BatchSize /\ ~DevNoInnerFlush THEN "flush" ELSE "inner",
+                                      !.cont = IF Len(pend) >= BatchSize /\ ~DevNoInnerFlush THEN "inner" ELSE @]
        ELSE g2' = [g2 EXCEPT !.pc = "after"]
   /\ UNCHANGED <<tpos, wq, udpGot, sockClosed, devSpin, devBlocked>>
 
@@ -363,7 +387,7 @@ G2UdpWriteDone ==
                                         [o |-> g2.pending[i][1], n |-> g2.pending[i][2],
                                          data |-> IF DevQueueRefs THEN <<>> ELSE Contents(g2.pending, g2.buf)[i]]]
                       /\ UNCHANGED udpGot
-                 ELSE /\ udpGot' = udpGot \o Contents(g2.pending, g2.buf)
+                 ELSE /\ udpGot' = udpGot \o Contents(Sendable(g2.pending), g2.buf)
                       /\ UNCHANGED wq
             /\ g2' = [g2 EXCEPT !.pending = <<>>, !.cont = "none",
                                 !.pc = CASE g2.cont = "inner" -> "inner" [] g2.cont = "compact" -> "compact" [] OTHER -> "exit"]
@@ -566,6 +590,8 @@ UCompleteAny == (g2.pc \in {"exit", "done"} /\ ~devDropped) => Len(udpGot) + Len
 \* ... and what is queued does reach the wire
 UQueueDrains == <>[](Len(wq) = 0)
 UNoDrop == ~devDropped
+\* flush() is never handed more datagrams than the batch writer has slots
+UBatchFits == g2.pc = "flush" => Len(g2.pending) <= BatchSize
 \* the bytes handed to the tunnel are the encoded datagrams, whole records only, in order, for
 \* datagrams actually read from the socket - however slow the tunnel Write is
 UEncoded == \E k \in 0..upos : tunGot = EncUpTo(par.u, k)
